@@ -540,6 +540,8 @@ def check_landings(ctx, cls, lc):
     ctx.stats.setdefault('capable_nodes', {})[cls.name] = len(lc.capable & lc.region)
     ctx.floor(f'{cls.name}: landing edges in the child-main', n_land, 8)
 
+    # nothing in the call closure of the guarded body swallows (or translates) the asynchronous exception
+    check_closure_propagates(ctx, cls, lc)
     # no library frame between the child-main and the target swallows the exception
     chain = []
     _, dw = cls.resolve('do_work')
@@ -569,3 +571,68 @@ def run_thorough(ctx):
     ctx.stats['bytecode_tier'] = st
     ctx.ob('E4', f"bytecode tier: {st['landing_instructions']} CALL-type landing instructions of {st['functions_cross_checked']} functions "
                  f"({st['instructions']} instructions) are routed to the same handler as the async edges of the AST tier", True)
+
+
+
+
+def call_closure(ctx, cls, roots, depth=4):
+    """in-repo functions reachable from `roots` through resolved calls (self./super()/module functions)"""
+    out = []
+    seen = set()
+    stack = [(f, c, 0) for f, c in roots]
+    while stack:
+        f, c, d = stack.pop()
+        key = (f.qualname, c.qualname if c else None)
+        if key in seen:
+            continue
+        seen.add(key)
+        out.append((f, c))
+        if d >= depth:
+            continue
+        for call in calls_in(f.node):
+            r = ctx.prog.resolve_call(call, f, c)
+            if r and r[0] == 'func' and not r[1].is_property:
+                tgt = r[1]
+                bound = r[2] if (r[2] is not None and (tgt.cls is None or tgt.cls in r[2].mro())) else tgt.cls
+                if tgt.module.name.endswith(('.utils',)) and tgt.name in ('get_logger',):
+                    continue
+                stack.append((tgt, bound, d + 1))
+    return out
+
+
+def check_closure_propagates(ctx, cls, lc):
+    roots = []
+    for name in ('_init_child', 'do_work', '_send_result'):
+        _, f = cls.resolve(name)
+        if f is not None:
+            roots.append((f, cls))
+    lat = ctx.an.lattice
+    n = 0
+    for f, c in call_closure(ctx, cls, roots):
+        key = (f.qualname, c.qualname if c else None)
+        seen = ctx.__dict__.setdefault('_closure_seen', set())
+        if key in seen:
+            continue
+        seen.add(key)
+        handlers = [h for t in walk_local(f.node) if isinstance(t, ast.Try) for h in t.handlers]
+        if not handlers:
+            continue
+        g = ctx.an.cfg(f, c)
+        for node in g.nodes:
+            for e in node.succ:
+                if e.kind != 'async' or e.dst.kind != 'handler':
+                    continue
+                n += 1
+                # the handler catches WorkerTerminatedError: it must re-raise it (bare raise) on every path
+                h = e.dst
+                leaves = g.find_path([h], lambda x: x.kind in ('exit',) or (x.kind == 'raise' and x.label != 'WorkerTerminatedError') or
+                                     (x.kind == 'join' and isinstance(x.stmt, (ast.While, ast.For))),
+                                     edge_ok=lambda x: x.kind != 'async', node_ok=lambda x: True)
+                ok = leaves is None
+                ctx.check('R3', f'{f.short}: the handler at line {h.line} does not swallow or translate an asynchronous WorkerTerminatedError landing at line {node.line}', ok,
+                          f.short, f'closure-swallows-async:{",".join(h.handler_types or [])}',
+                          f'{f.short} runs in the child between start-up and the report of the outcome; its `except {",".join(h.handler_types or [])}` catches a WorkerTerminatedError landing at '
+                          f'`{short(node.stmt)}` and does not re-raise it: the request to terminate is swallowed (or turned into another error) inside the library',
+                          where=loc(f, h.stmt), path=path_str(leaves or []))
+    ctx.stats.setdefault('closure_handler_landings', 0)
+    ctx.stats['closure_handler_landings'] += n
